@@ -1,24 +1,36 @@
 /-
 Model of `src/decoder/country/country_icao_mask.rs`: the nested `match icao >> shift` over the
-arms extracted from the source (`Generated/Country.lean`).
+arms extracted from the source (`Generated/Country.lean`).  Short codes are carried as numbers
+(base-256 of their ASCII characters) so that statements about them reduce in the kernel.
 -/
 import SqModel.Generated.Country
 
 namespace Sq
 
 /-- first arm of one level whose pattern equals `icao >> shift` -/
-def matchLevel (icao : Nat) (shift : Nat) (arms : List (Nat × String)) : Option String :=
+def matchLevel (icao : Nat) (shift : Nat) (arms : List (Nat × Nat)) : Option Nat :=
   (arms.find? fun a => a.1 == icao >>> shift).map (·.2)
 
 /-- the nested match: the first level (in source order) that has a matching arm decides -/
-def nestedMatch (icao : Nat) : List (Nat × List (Nat × String)) → String
+def nestedMatch (icao : Nat) : List (Nat × List (Nat × Nat)) → Nat
   | [] => Gen.countryDefault
   | (shift, arms) :: rest =>
     match matchLevel icao shift arms with
     | some c => c
     | none => nestedMatch icao rest
 
-/-- `icao_to_country(icao).1` (the short code; the long name is never shown) -/
-def icaoToCountry (icao : Nat) : String × String := ("", nestedMatch icao Gen.countryLevels)
+/-- the characters of a short code -/
+def codeString (n : Nat) : String :=
+  let rec go (fuel n : Nat) (acc : List Char) : List Char :=
+    match fuel with
+    | 0 => acc
+    | fuel + 1 => if n = 0 then acc else go fuel (n / 256) (Char.ofNat (n % 256) :: acc)
+  String.ofList (go 8 n [])
+
+/-- the short code `icao_to_country(icao).1` as a number -/
+def countryCode (icao : Nat) : Nat := nestedMatch icao Gen.countryLevels
+
+/-- `icao_to_country(icao)` (the long name is never shown) -/
+def icaoToCountry (icao : Nat) : String × String := ("", codeString (countryCode icao))
 
 end Sq
